@@ -976,7 +976,15 @@ fn check(rec: &Record) -> Vec<Violation> {
             }
             if c.sync && !upto.iter().any(|n| matches!(n, Note::Synced)) {
                 let late = attached.map(|a| h.attached.iter().any(|(s, id)| *id != c.id && *s < a)).unwrap_or(false);
-                let kind = if late { "no_synced:late_joiner" } else { "no_synced:first_consumer" };
+                // Was a sync request seen by the lane at all after this consumer attached? (The recorded
+                // registration race needs one; a consumer whose sync is never requested is a different defect.)
+                let sync_sent = attached.map(|a| h.requests.iter().any(|(s, r)| *s > a && r == "sync")).unwrap_or(false);
+                let kind = match (late, sync_sent) {
+                    (true, true) => "no_synced:late_joiner",
+                    (true, false) => "no_synced:sync_never_requested:late_joiner",
+                    (false, true) => "no_synced:first_consumer",
+                    (false, false) => "no_synced:sync_never_requested:first_consumer",
+                };
                 out.push(Violation::new("C07", "C07.session", kind, format!("consumer {} asked to be synced but never received synced", c.id)));
             }
             // Every later event, in order: the events the lane emitted after the consumer had
